@@ -290,6 +290,10 @@ type Typedef struct {
 	resolving bool
 	// run is the Process run that resolved YangType.
 	run int
+	// failed holds the errors of that run when it could not resolve the
+	// typedef: every typedef derived from it reports them without going
+	// down the chain again.
+	failed []error
 }
 
 func (Typedef) Kind() string             { return "typedef" }
